@@ -113,6 +113,15 @@ def wsgi_call(app, method: str, path: str, body: bytes | None = b"", headers: di
     return int(st["status"].split()[0]), list(st["headers"]), out
 
 
+def dispose_app(app) -> None:
+    """Harness hygiene: a sticky-enabled app starts a 1 s reaper thread on its first request; stop it once the app
+    is no longer needed (thousands of apps are built by C40)."""
+    for m in getattr(app, "_unprepared_middleware", None) or []:
+        stop = getattr(m, "stop_reaper", None)
+        if stop is not None:
+            stop()
+
+
 def hget(headers, name: str):
     vals = [v for k, v in headers if k.lower() == name.lower()]
     return vals[0] if vals else None
@@ -271,7 +280,7 @@ import json as _json
 import re as _re
 
 from vf.core import Ctx as _Ctx
-from vf.tlc import MachineryError, render_cfg, require_ok, run_tlc, sany
+from vf.tlc import MachineryError, render_cfg, require_ok, run_tlc
 
 _ENUM2 = """---- MODULE {m}_Enum2 ----
 EXTENDS {m}, Json, TLC
@@ -298,6 +307,9 @@ Judge == i = 0 \\/ LET bad == {conforms}(Obs[i].case, Obs[i].obs) IN
 ====
 """
 
+# Measured on the shared 16-core box: for these depth-2 state graphs more TLC workers are *slower* (1 worker 3 s,
+# 4 workers 22 s, auto 48 s on the same 14k-state run), so the table engines run single-worker.
+WORKERS = 1
 _INIT_N = _re.compile(r"Finished computing initial states: (\d+) distinct state")
 
 
@@ -307,10 +319,9 @@ def enumerate_split(ctx: _Ctx, engine: str, module: str, *, constants=None, inva
     invs = "\n".join(f"Inv_{x} == full => {x}(c)" for x in invariants)
     (wd / f"{module}_Enum2.tla").write_text(_ENUM2.format(m=module, seeds=seeds, expand=expand, expected=expected,
                                                           invs=invs))
-    sany(wd, f"{module}_Enum2")
     cfg = render_cfg(init_next=("EnumInit", "EnumNext"), constants=constants,
                      invariants=[f"Inv_{x}" for x in invariants] + (["Emit"] if emit else []))
-    r = run_tlc(wd, f"{module}_Enum2", cfg, timeout=timeout, cfg_name=f"{module}_{name or 'enum2'}.cfg")
+    r = run_tlc(wd, f"{module}_Enum2", cfg, timeout=timeout, cfg_name=f"{module}_{name or 'enum2'}.cfg", workers=WORKERS)
     ctx.add_tlc(name or f"{module}:enumerate", r)
     require_ok(r, f"{module} table enumeration / table invariants {list(invariants)}")
     m = _INIT_N.search(r.out)
@@ -325,14 +336,14 @@ def judge_split(ctx: _Ctx, engine: str, module: str, observations: list, *, cons
                 timeout=900, chunk=60000, block=256) -> list:
     wd = ctx.wd.stage(engine)
     (wd / f"{module}_Obs2.tla").write_text(_OBS2.format(m=module, conforms=conforms, block=block))
-    sany(wd, f"{module}_Obs2")
     bad = []
     for off in range(0, len(observations), chunk):
         part = observations[off:off + chunk]
         f = wd / f"obs_{module}_{off}.json"
         f.write_text(_json.dumps(part))
         cfg = render_cfg(init_next=("ObsInit", "ObsNext"), constants=constants, invariants=["Judge"])
-        r = run_tlc(wd, f"{module}_Obs2", cfg, timeout=timeout, env={"OBS_FILE": str(f)}, cfg_name=f"{module}_obs2.cfg")
+        r = run_tlc(wd, f"{module}_Obs2", cfg, timeout=timeout, env={"OBS_FILE": str(f)}, cfg_name=f"{module}_obs2.cfg",
+                    workers=WORKERS)
         ctx.add_tlc(f"{module}:judge[{off}:{off + len(part)}]", r)
         require_ok(r, f"{module} observation judging")
         nblk = (len(part) - 1) // block + 1
@@ -343,3 +354,23 @@ def judge_split(ctx: _Ctx, engine: str, module: str, observations: list, *, cons
             bad.append((off + j["i"] - 1, list(j["bad"])))
         f.unlink()
     return bad
+
+
+# ------------------------------------------------------------------------------------------------ more frame surgery
+def zstd_lie_from(sizeless: bytes, declared: int) -> bytes:
+    """Rewrite the header of a size-less zstd frame so that it declares ``declared`` decoded bytes."""
+    fhd, wd, pos, size, did = _zstd_header_layout(sizeless)
+    assert size == 0 and wd is not None and did == 0
+    new_fhd = (fhd & 0x3F) | (3 << 6)
+    return sizeless[:4] + bytes([new_fhd]) + sizeless[5:pos] + struct.pack("<Q", declared) + sizeless[pos:]
+
+
+def gzip_repad(member: bytes, total: int) -> bytes | None:
+    """Insert an FEXTRA field into a (possibly damaged) gzip member so that the wire size is exactly ``total``."""
+    extra = total - len(member)
+    if extra == 0:
+        return member
+    if extra < 2 or extra - 2 > 0xFFFF or len(member) < 10:
+        return None
+    return member[:3] + bytes([member[3] | 4]) + member[4:10] + struct.pack("<H", extra - 2) + b"\x00" * (extra - 2) \
+        + member[10:]
